@@ -248,7 +248,7 @@ def worker(args):
 def run(chk):
     quick = chk.tier == 'quick'
     P = (chk.prop, chk.tier)
-    N = 2 if quick else 5
+    N = 2 if quick else 6
     cases = []
     for lc in range(0, N + 1):
         for lp in (0, N):
